@@ -44,6 +44,9 @@ func init() {
 		Variant{ID: "c17-r4-commit-on-reject", Prop: "C17", File: "streamer.go",
 			Old: "\t\tif !ev.IsValid() {\n", New: "\t\tif !ev.IsValid() {\n\t\t\ttranEvents = nil\n",
 			Expect: "C17-R4 reject-effect@parser"},
+		Variant{ID: "c17-r4-reject-returns-start-position", Prop: "C17", File: "streamer.go",
+			Old: "\t\tif !ev.IsValid() {\n\t\t\treturn pos, ", New: "\t\tif !ev.IsValid() {\n\t\t\treturn s.binlogPosition(), ",
+			Expect: "C17-R4 reject-pos@parser"},
 	)
 }
 
@@ -418,6 +421,11 @@ func c17R4(a *A, r *Roles, ar *Arms) {
 				n++
 				okErr := len(x.Results) == 2 && provablyNonNilErr(x.Results[1])
 				a.check(okErr, rule, fmt.Sprintf("reject-return@parser#%d", n), w.posOf(x), "rejection returns a non-nil error", "a packet that fails the gate ends the stream without an error")
+				if len(x.Results) >= 1 {
+					okPos, why := freshPosLoad(r, x)
+					a.check(okPos, rule, fmt.Sprintf("reject-pos@parser#%d", n), w.posOf(x), "rejection returns the position cell (the last accepted commit boundary)",
+						"on a packet that fails the gate "+why+": the resume position is not the last accepted commit boundary")
+				}
 			}
 		}
 		// must end in a return, not continue the loop
